@@ -34,8 +34,8 @@ func init() {
 		return capgen.GenCapHistory(capgen.Rand{R: r}, capgen.CapGenOptions{MaxActions: 12}).Prog(), true
 	}})
 	register(Source{Name: "capgen-contracts", Weight: 1, Next: func(r *rand.Rand) (prog.History, bool) {
-		// FK1/FK2 (group caps, C26): borrow/remove of a contract added earlier in the same transaction; not generated while listed as known
-		avoid := map[string]bool{"FK1": anyKnown("FK1"), "FK2": anyKnown("FK2")}
+		// FK1/FK2/FK4 (group caps, C26): their triggers are not generated while the findings are listed as known
+		avoid := map[string]bool{"FK1": anyKnown("FK1"), "FK2": anyKnown("FK2"), "FK4": anyKnown("FK4")}
 		return capgen.GenContractHistory(capgen.Rand{R: r}, capgen.ContractGenOptions{MaxActions: 10, Avoid: avoid}).Prog(), true
 	}})
 	register(Source{Name: "resgen", Weight: 1, Next: func(r *rand.Rand) (prog.History, bool) {
